@@ -61,6 +61,9 @@ class Check:
         out = os.path.join(self.workdir(), f'{label}.mismatches.ndjson')
         try:
             s = vp.jsv(['replay'] + list(files) + ['--out', out] + list(extra_args))
+        except vp.HarnessHang as e:
+            self._hang(e, 'replay ' + label)
+            raise RecorderAborted()
         except vp.HarnessCrash as e:
             log(f'[replay] harness process died, isolating the vector(s) that bring it down: {str(e)[:200]}')
             s = self._isolated_replay(files, out, extra_args)
@@ -70,6 +73,18 @@ class Check:
         for smp in s.get('samples', [])[:3]:
             self.samples.append(smp)
         return s
+
+    def _hang(self, e, where):
+        """non-termination of the code under test is data: the specification gives every call a result"""
+        ctxt = e.info.get('context', '')
+        vec = None
+        try:
+            vec = vp.unquote_tlc(ctxt) if ctxt.startswith('"') else json.loads(ctxt)
+        except Exception:
+            pass
+        self.mismatches.append((self.pid + '.hang', {
+            'what': f'a call into the code under test did not return within {e.info.get("seconds", "?")} s (the specification gives it a result)',
+            'where': where, 'vector': vec, 'context': ctxt[:2000] if vec is None else None}))
 
     ABORT_ASPECT = {'obj': 'C06.abort', 'parse': 'C03.abort', 'parse_bytes': 'C03.abort', 'nest': 'C03.abort', 'print': 'C13.abort',
                     'wide': 'C13.abort', 'canon': 'C09.abort', 'uneq': 'C15.abort', 'ser': 'C16.abort', 'de': 'C16.abort', 'sj': 'C18.abort',
@@ -96,6 +111,9 @@ class Check:
             o = p + '.out'
             try:
                 s = vp.jsv(['replay', p, '--out', o, '--threads', 2] + list(extra_args))
+            except vp.HarnessHang as e:
+                self._hang(e, 'replay (isolating an aborting vector)')
+                return
             except vp.HarnessCrash:
                 if found[0] >= 3 and len(lines) > 1:
                     # enough culprits isolated: do not bisect further chunks, just count them
@@ -155,6 +173,9 @@ class Check:
         path = os.path.join(self.workdir(), out_name)
         try:
             s = vp.jsv([sub, '--out', path] + [str(a) for a in args], seed_offset=seed_offset)
+        except vp.HarnessHang as e:
+            self._hang(e, f'recorder {sub} {" ".join(str(a) for a in args)} (seed {vp.seed() + seed_offset})')
+            raise RecorderAborted()
         except vp.HarnessCrash as e:
             # the code under test aborted the process while being driven by the recorder: that is data
             self.mismatches.append((self.pid + '.abort', {'what': 'the process aborted (panic that cannot unwind / stack overflow) while the recorder drove the real code',
